@@ -610,6 +610,11 @@ def run(c, facts):
     import c11
     R7 = c.rule('C16.R7', 'LOADER-TEXT: the server parses exactly the text it holds for the document, so tree spans are byte offsets into the text positions are converted with (shared with C11.R1)')
     c.shared(R7, c11.r1_lex_range, 'C11.R1', facts)
+    R15 = c.rule('C16.R15', 'DIAG-SPAN: the span a diagnostic is converted from is the error\'s own (locator and byte range of one text), so the range selects that text in the client\'s document (shared with C11.R8, C11.R10)')
+    c.shared(R15, c11.r8_diag_span, 'C11.R8', facts)
+    c.shared(R15, c11.r10_span_provenance, 'C11.R10', facts)
+    import lexrules as _lex
+    c.run(lambda c: _lex.no_crlf_split(c, facts, 'C16.R16'))
     c.run(r14_sync_capability, facts)
     c.run(r13_range_verbatim, facts)
     c.run(r5_same_text, facts)
